@@ -352,6 +352,8 @@ def apply(s, cfg, op):
         s.laser.plasma = p
     elif k == "lp_set":
         cfg["laser"]["profile"][op["attr"]] = op["v"]; setattr(s.laser.laser_profile, op["attr"], op["v"])
+    elif k == "lp_pol":
+        cfg["laser"]["profile"]["pol"] = op["v"]; s.laser.laser_profile.set_polarization(Vector3D(*op["v"]))
     elif k == "ls_set":
         cfg["laser"]["spectrum"][op["attr"]] = op["v"]; setattr(s.laser.laser_spectrum, op["attr"], op["v"])
     else:
